@@ -562,6 +562,14 @@ class Oracle(object):
                 if bool(ti) != t_true:
                     self.viol('C19', 'telescope_is_idle', 'is_idle()=%s status=%s use=%s' % (
                         ti, self.prev_status, tel.telescope_use))
+                # ... and by the harness' own ledger (not the status field): idle only once every observation has
+                # been observed for its whole duration
+                if ti:
+                    early = [n_ for n_, L_ in self.ob.items()
+                             if not L_['start'] or now < L_['start'][0] + self.v.obs[n_]['dur'] - EPS]
+                    if early:
+                        self.viol('C19', 'telescope_idle_before_observations_ended', 'is_idle()=True at %s; %s' % (
+                            now, {n_: (self.ob[n_]['start'], self.v.obs[n_]['dur']) for n_ in early}))
                 fin = sim.is_finished()
                 f_true = (not busy_true) and resident <= EPS and not qn and t_true
                 if bool(fin) != f_true:
@@ -1069,6 +1077,13 @@ class Oracle(object):
             if L['fin_t'] and L['run_t']:
                 if L['run_t'][0] != L['start'][0]:
                     self.viol('C08', 'running_not_at_start', n)
+                if abs((L['fin_t'][0] - L['run_t'][0]) - w['dur']) > EPS:
+                    self.viol('C08', 'observing_period', '%s was RUNNING from %s to %s, duration %s' % (
+                        n, L['run_t'][0], L['fin_t'][0], w['dur']))
+            elif L['run_t'] and not L['fin_t'] and self.res.status in ('ok', 'budget') \
+                    and self.env.now > L['run_t'][0] + w['dur'] + 2:
+                self.viol('C08', 'never_finished', '%s RUNNING since %s (duration %s), still not FINISHED at %s' % (
+                    n, L['run_t'][0], w['dur'], self.env.now))
 
     # ..................................................................... C09
     def _c09_end(self):
@@ -1271,6 +1286,19 @@ class Oracle(object):
                 self.viol('C13', 'buffer_added_not_at_start', '%s: %s vs %s' % (n, ba, st))
             if br is not None and a1 is not None and br != a1:
                 self.viol('C13', 'buffer_removed_not_at_allocation_stopped', '%s: %s vs %s' % (n, br, a1))
+        # a run that completed went through every transition of every observation: each must be in the log once,
+        # whatever the ledger saw
+        if completed and self.res.status == 'ok' and not self.adv:
+            kinds8 = [('instrument', 'telescope', 'started'), ('instrument', 'telescope', 'finished'),
+                      ('buffer', 'buffer', 'added'), ('buffer', 'buffer', 'removed'),
+                      ('scheduler', 'queue', 'added'), ('scheduler', 'queue', 'removed'),
+                      ('scheduler', 'allocation', 'started'), ('scheduler', 'allocation', 'stopped')]
+            for n in self.ob:
+                for k in kinds8:
+                    c_ = sum(1 for (o, a, rs, e, t) in rows if o == n and (a, rs, e) == k)
+                    if c_ != 1:
+                        self.viol('C13', 'event_count', '%s %s: %d entries in the log of a completed run' % (n, '/'.join(k), c_),
+                                  site='/'.join(k[1:]) + (':missing' if c_ == 0 else ':dup'))
         # no entry for an unknown observation / unknown kind duplicated
         known = set(self.ob)
         for (o, a, rs, e, t) in rows:
